@@ -305,6 +305,14 @@ def propagateList (cfg : ReflectCfg) : Stack → List Node → Stack
   | s, n :: r => propagateList cfg (propagateNode cfg s n) r
 end
 
+/-- the v-once rule for one element: `none` = already rendered in this render (skip it), `some st'` = go on, with the id recorded when the
+    element is marked (an element that also carries v-for is checked per iteration, on its clones) -/
+def onceGate (st : St) (a : List Attr) : Option St :=
+  if hasAttr a (S "v-once") && !hasAttr a (S "v-for") then
+    if st.seen.contains (getAttr a (S "v-once-id")) then none
+    else some { st with seen := st.seen ++ [getAttr a (S "v-once-id")] }
+  else some st
+
 /-! ### the evaluator -/
 
 def includeLimit : Nat := Generated.includeMaxDepth.getD 1000000
@@ -425,10 +433,17 @@ def evalList (W : World) : Nat → Ctx → St → List Node → R (List Node)
           bindR (evalSlot W f ctx st attrs kids) (fun res st1 => prepend res (evalList W f ctx st1 rest))
         else if hasAttr attrs (S "v-if") then
           bindE (chainSelect (evalCondition W.P st.stack) (getAttr attrs (S "v-if")) rest) (fun ps =>
-            let chosen : Option Node := match ps.1 with | .none => none | .member 0 => some n | .member (i + 1) => rest[i]?
-            match chosen with
-            | some (.elem t a k) => bindR (evalAsElement W f ctx st t a k) (fun res st1 => prepend res (evalList W f ctx st1 (rest.drop ps.2)))
-            | _ => evalList W f ctx st (rest.drop ps.2))
+            match ps.1 with
+            | .none => evalList W f ctx st (rest.drop ps.2)
+            | .member 0 => bindR (evalAsElement W f ctx st tag attrs kids) (fun res st1 => prepend res (evalList W f ctx st1 (rest.drop ps.2)))
+            | .member (i + 1) =>
+              -- a v-else-if / v-else member is only reached from here: the v-once rule is applied to it when it is selected (fix: onceAlreadyRendered)
+              match rest[i]? with
+              | some (.elem t a k) =>
+                (match onceGate st a with
+                 | none => evalList W f ctx st (rest.drop ps.2)
+                 | some st' => bindR (evalAsElement W f ctx st' t a k) (fun res st1 => prepend res (evalList W f ctx st1 (rest.drop ps.2))))
+              | _ => evalList W f ctx st (rest.drop ps.2))
         else if hasAttr attrs (S "v-else-if") || hasAttr attrs (S "v-else") then evalList W f ctx st rest
         else if tag == S "template" then
           bindR (evalTemplate W f ctx st attrs kids) (fun res st1 =>
@@ -469,7 +484,10 @@ def evalVFor (W : World) : Nat → Ctx → St → Str → List Attr → List Nod
           let j := (rest.takeWhile (fun x => !isElem x)).length
           match rest[j]? with
           | some (.elem t a k) =>
-            if hasAttr a (S "v-else") then bindR (evalAsElement W f ctx st1 t a k) (fun res st2 => .ok ((res, j + 1), st2))
+            if hasAttr a (S "v-else") then
+              (match onceGate st1 a with
+               | none => .ok (([], 0), st1)
+               | some st1' => bindR (evalAsElement W f ctx st1' t a k) (fun res st2 => .ok ((res, j + 1), st2)))
             else .ok (([], 0), st1)
           | _ => .ok (([], 0), st1))
 
